@@ -136,8 +136,8 @@ pub fn get_race_id(race: Race, tribe: Tribe, gender: Gender) -> Option<i32> {
             Gender::Female => Some(601),
         },
         Race::Lalafell => match gender {
-            Gender::Male => Some(501),
-            Gender::Female => Some(601),
+            Gender::Male => Some(1101),
+            Gender::Female => Some(1201),
         },
         Race::Miqote => match gender {
             Gender::Male => Some(701),
